@@ -7,6 +7,24 @@ CHECKS = {
  "C17": dict(design="6/C17", technique="Coq proof (TreeLaws.v: inv_apply for all transforms incl. nested chains, extend_spec, chain order) + kernel translator tie + model-vs-implementation correspondence evaluated inside Coq",
    text="Theorems over all pytrees / chains in Coq (R for the arithmetic laws); the model is tied to rex/base.py by regenerating the Denormalize/Chain/Exponential/Extend/Shared kernels from source on every run (tie lemmas) and by running the Q instance of the same definitions against the implementation on generated trees and chains.",
    note="Trusted: Coq kernel, real-number axioms (sig_forall_dec, sig_not_dec, functional_extensionality_dep, classic via Reals), translator, harness; float rounding judged exactly on dyadic cases and within 8e-5 otherwise; Exponential judged by Coq-Interval certified enclosures. Extend.inv is not claimed by the property."),
+ "C02": dict(design="6/C02", technique="Coq proof (Kahn-net confluence: diamond, sim_episode_deterministic) + translator tie of the scheduling kernels + differential runs of the real threaded runtime under perturbed schedules against the extracted model",
+   text="Determinism is a theorem about the actor-net model of rex/asynchronous.py for every schedule (any finite list of actor firings); the model is tied to the code by regenerated arithmetic/selection kernels and by exact trace equality on generated lattice graphs executed K times under different drivings, real-time factors and hook-perturbed thread schedules.",
+   note="Handlers are atomic in the model (single-reader/single-writer deques); interleavings inside a handler, wall-clock mode and float rounding off the 1/64 s lattice are outside the theorem. Trusted: Coq kernel, extraction (ExtrOcamlBasic) + OCaml driver, harness, hooks."),
+ "C03": dict(design="6/C03", technique="Coq proof (per-actor history laws lifted by the Kahn principle: msgs_law, recv laws, consumption clause, blocking count, window_is_lastn) + translator tie + model/implementation trace equality + direct clause checker on implementation traces",
+   text="Loss-freeness, causality, the consumption rule and the window rule are theorems over all reachable states of the actor net; implementation records of generated graphs must equal the model's and are also judged clause by clause.",
+   note="Blocking count closed form proved for non-skip N>0 (skip / N=0 variants covered by correspondence only); wall-clock episodes are judged by the clause checker only. Same trusted base as C02."),
+ "C04": dict(design="6/C04", technique="Coq proof (start_is_max, start_recurrence, frequency_drift, phase_no_drift, never_early, arrival law on the actor net) + translator tie of push_scheduled_ts/push_phase_shift/push_ts_input + reference recurrence evaluated on implementation records",
+   text="The start/end/arrival law is proved for every reachable state of the model; the arithmetic kernels are regenerated from source and re-proved equal to the model each run; implementation records must equal the model's and satisfy an independently written reference recurrence.",
+   note="Times on the 1/64 s lattice (round(.,6) is the identity there); off-lattice float rounding is not covered. Same trusted base as C02."),
+ "C05": dict(design="6/C05", technique="Coq proof of the stop() handshake protocol (invariant + decreasing measure: stop_returns; pinned-protocol deadlock/IndexError witnesses) + translator tie of the shared-variable access order + gate-forced interleavings on the real threads + multi-episode histories against the single-episode model",
+   text="stop() termination for every interleaving and queue length is a theorem about the protocol the translator reads off AsyncGraph.stop/_Synchronizer._async_step; the model's critical interleaving is forced on the real code through the REX_VERIF gate points; episode isolation is checked against the model on random call histories.",
+   note="run/step/reset return under the dataflow-liveness hypothesis (supported class: supervisor's next step needs <= 10 look-ahead ticks); node startup/stop user code and timeouts not modelled. Trusted: Coq kernel, hooks, watchdog harness."),
+ "C06": dict(design="6/C06", technique="Coq proof (async_once: ghost log of step applications = recorded ticks; compiled_once via the symbolic runner) + host-side invocation log of probe nodes compared with records under run/step/override/jit driving",
+   text="Exactly-once execution is a theorem of both runtime models; on the code it is observed through the probe nodes' host-side invocation log for every node and tick.",
+   note="vmapped execution excluded by the property; trusted: probe nodes, io_callback ordering."),
+ "C13": dict(design="6/C13", technique="Coq proof (rows_law, record_state_chain, async_once on the actor net) + relational runs under all record-setting combinations compared with the probe nodes' host log",
+   text="Faithfulness of rows and the state chain are theorems of the model; that recording has no feedback into the execution is decided by running each case under every record-setting combination and comparing the host-side execution log.",
+   note="purity holds by construction in the functional model, so for that clause only the relational runs carry weight (DESIGN 9)."),
 }
 NOT_YET = "check not built yet in this session (design in DESIGN.md section 6); not claimed until its check exists"
 man = dict(version=1,
